@@ -398,6 +398,134 @@ Definition date_prefix : bytes := bs "TZ=UTC date +%Y-%m-%dT%H:%M:%SZ >>".
     assignment is only the environment of the command that is run.  The other
     lines are recognised literally.  [None]: not an instruction of the
     mini-shell (or a script the shell would abort). *)
+(** ** Assignment lines with quoted values.
+    A line that contains a quote is read character by character: blanks,
+    tabs and semicolons separate words outside quotes only; '...' is taken
+    literally; "..." too, except that $NAME is expanded (a backslash or a
+    backquote inside is outside the mini-shell); quotes may be glued to
+    unquoted text.  Each word must then read NAME=value.  (The mini-shell does
+    not check that NAME= itself is unquoted; bash would run such a word as a
+    command.)  No theorem covers this part: like $NAME references it is
+    compared with bash on the executed cases only. *)
+Inductive piece := PLit (b : bytes) | PVar (name : bytes).
+Inductive qmode := QPlain | QSingle | QDouble.
+Record qstate := {
+  q_mode : qmode;
+  q_var : option bytes;            (* the name being read after a $, reversed *)
+  q_cur : bytes;                   (* the literal being read, reversed *)
+  q_pieces : list piece;           (* pieces of the current word, reversed *)
+  q_inword : bool;
+  q_words : list (list piece);     (* finished words, reversed *)
+}.
+Definition q_init : qstate :=
+  {| q_mode := QPlain; q_var := None; q_cur := []; q_pieces := []; q_inword := false; q_words := [] |}.
+
+Definition q_flush (s : qstate) : qstate :=
+  match q_cur s with
+  | [] => s
+  | c => {| q_mode := q_mode s; q_var := q_var s; q_cur := []; q_pieces := PLit (rev c) :: q_pieces s;
+            q_inword := q_inword s; q_words := q_words s |}
+  end.
+Definition q_end_word (s : qstate) : qstate :=
+  let s := q_flush s in
+  if q_inword s then
+    {| q_mode := q_mode s; q_var := None; q_cur := []; q_pieces := []; q_inword := false;
+       q_words := rev (q_pieces s) :: q_words s |}
+  else s.
+Definition q_lit (s : qstate) (c : byte) : qstate :=
+  {| q_mode := q_mode s; q_var := q_var s; q_cur := c :: q_cur s; q_pieces := q_pieces s; q_inword := true; q_words := q_words s |}.
+Definition q_set_mode (s : qstate) (m : qmode) : qstate :=
+  {| q_mode := m; q_var := q_var s; q_cur := q_cur s; q_pieces := q_pieces s; q_inword := true; q_words := q_words s |}.
+Definition q_start_var (s : qstate) : qstate :=
+  let s := q_flush s in
+  {| q_mode := q_mode s; q_var := Some []; q_cur := []; q_pieces := q_pieces s; q_inword := true; q_words := q_words s |}.
+Definition q_close_var (s : qstate) : option qstate :=
+  match q_var s with
+  | None => Some s
+  | Some rn =>
+      if is_name (rev rn) then
+        Some {| q_mode := q_mode s; q_var := None; q_cur := q_cur s; q_pieces := PVar (rev rn) :: q_pieces s;
+                q_inword := q_inword s; q_words := q_words s |}
+      else None
+  end.
+
+Definition q_step_plain (s : qstate) (c : byte) : option qstate :=
+  match q_mode s with
+  | QPlain =>
+      if is_sep c || Byte.eqb c x09 then Some (q_end_word s)
+      else if Byte.eqb c x27 then Some (q_set_mode s QSingle)
+      else if Byte.eqb c x22 then Some (q_set_mode s QDouble)
+      else if Byte.eqb c x24 then Some (q_start_var s)
+      else if harmless c then Some (q_lit s c)
+      else None
+  | QSingle => if Byte.eqb c x27 then Some (q_set_mode s QPlain) else Some (q_lit s c)
+  | QDouble =>
+      if Byte.eqb c x22 then Some (q_set_mode s QPlain)
+      else if Byte.eqb c x24 then Some (q_start_var s)
+      else if Byte.eqb c x5c || Byte.eqb c x60 then None
+      else Some (q_lit s c)
+  end.
+Definition q_step (s : qstate) (c : byte) : option qstate :=
+  match q_var s with
+  | Some rn =>
+      if is_name_char c then
+        Some {| q_mode := q_mode s; q_var := Some (c :: rn); q_cur := q_cur s; q_pieces := q_pieces s;
+                q_inword := q_inword s; q_words := q_words s |}
+      else match q_close_var s with Some s' => q_step_plain s' c | None => None end
+  | None => q_step_plain s c
+  end.
+Fixpoint q_run (s : qstate) (l : bytes) : option qstate :=
+  match l with
+  | [] => Some s
+  | c :: tl => match q_step s c with Some s' => q_run s' tl | None => None end
+  end.
+Definition q_words_of (l : bytes) : option (list (list piece)) :=
+  match q_run q_init l with
+  | None => None
+  | Some s =>
+      match q_close_var s with
+      | None => None
+      | Some s => match q_mode s with
+                  | QPlain => Some (rev (q_words (q_end_word s)))
+                  | _ => None                       (* a quote is not closed *)
+                  end
+      end
+  end.
+
+Fixpoint eval_pieces (st : sh_state) (ps : list piece) : option bytes :=
+  match ps with
+  | [] => Some []
+  | PLit b :: tl => option_map (app b) (eval_pieces st tl)
+  | PVar n :: tl => match var_value n st with
+                    | Some v => option_map (app v) (eval_pieces st tl)
+                    | None => None
+                    end
+  end.
+Definition exec_word (st : sh_state) (w : list piece) : option sh_state :=
+  match w with
+  | PLit l :: tl =>
+      match split_eq l with
+      | Some (n, v0) =>
+          if is_name n then
+            match eval_pieces st (PLit v0 :: tl) with
+            | Some v => Some (set_var n v st)
+            | None => None
+            end
+          else None
+      | None => None
+      end
+  | _ => None
+  end.
+Fixpoint exec_words (st : sh_state) (ws : list (list piece)) : option sh_state :=
+  match ws with
+  | [] => Some st
+  | w :: tl => match exec_word st w with Some st' => exec_words st' tl | None => None end
+  end.
+Definition has_quote (l : bytes) : bool := existsb (fun c => Byte.eqb c x27 || Byte.eqb c x22) l.
+Definition exec_assign_line (st : sh_state) (l : bytes) : option sh_state :=
+  if has_quote l then match q_words_of l with Some ws => exec_words st ws | None => None end
+  else exec_assigns st (tokens l).
+
 Definition head_is (b : byte) (l : bytes) : bool :=
   match l with c :: _ => Byte.eqb c b | [] => false end.
 
@@ -406,7 +534,7 @@ Definition exec_line (st : sh_state) (l : bytes) : option sh_state :=
   else if head_is x3d (snd (span_name l)) then
       match strip_prefix date_prefix l with
       | Some f => if plain_word f then Some st else None        (* run: appends a line to f, state unchanged *)
-      | None => exec_assigns st (tokens l)
+      | None => exec_assign_line st l
       end
   else
   if bytes_eqb l (bs "set -euao pipefail") then
